@@ -85,6 +85,16 @@ CLAIMED = {
              'enter through Vieta hypotheses).  Path.bbox = union of n<=3 symbolic boxes.',
         note='Arc.bbox not covered yet. math.sqrt mapped to a sqrt atom, min/max in bezier.py to If-terms. Hard per-query limits (forked solver); a timed-out query is reported inconclusive.',
         design='3/C08'),
+    'C16': dict(
+        text='Every history of k<=2 (thorough 3) mutations over {setitem, slice assignment, insert, append, extend, delitem, pop, reverse, '
+             'start=, end=} with small positive/negative index arguments is applied to a real Path of symbolic Lines whose length/point '
+             'kernels are uninterpreted functions of (start,end); before and after every mutation length/start/end/bbox/d/len/== '
+             '(and T2t/point for k=1) are evaluated on the mutated object and on a fresh Path of the current segments and z3 decides whether '
+             'they can differ.  CubicBezier length cache: quadrature kernels uninterpreted in (control points,t0,t1,error,min_depth); '
+             'histories length(e1,d1) -> [reassign | reversed] -> length(e2,d2), both scipy configurations.  eq => hash: fields read by '
+             '__eq__/__hash__ traced on the real classes, hash = uninterpreted function of them (QF_UF).',
+        note='One recorded known finding (Path eq ignores _closed, hash includes it; the suite pins both). QuadraticBezier has no effective cache (closed form recomputed) and is not a family. Histories longer than the bound are outside.',
+        design='3/C16'),
 }
 
 NOT_YET = 'check not built yet in this round (see DESIGN.md section 3 for the plan)'
